@@ -1255,8 +1255,9 @@ class C16(Prop):
 
 class C15(Prop):
     rule = ("operation histories over the public mutation API of Value (parse incl. duplicate keys, clone, drop, pointer reads, and pointer_mut(path) "
-            "followed by push / pop / Array::insert / remove / swap_remove / truncate / clear / Object::insert / remove / take / assignment / "
-            "v[key]= / v[idx]= / entry().or_insert, with values that are freshly parsed or clones of parts of other slots, wrong-kind and "
+            "followed by push / pop / Array::insert / remove / swap_remove / truncate / clear / split_off / drain / extend_from_within / resize / "
+            "retain / Object::insert / remove / retain / take / assignment / v[key]= / v[idx]= / entry().or_insert, on values that were parsed "
+            "or built in memory (to_value: owned from the start), with arguments that are freshly parsed or clones of parts of other slots, wrong-kind and "
             "out-of-range variants included): fixed histories, every ordered pair of 12 array mutations on a value and its clone, every ordered pair "
             "of 10 object mutations on a duplicate-key object and its clone, and random histories; after every step the result of the operation and a "
             "canonical dump of EVERY live value must equal the reference model of plain vectors and maps (oracle), and dump + representation skeleton "
@@ -1264,7 +1265,8 @@ class C15(Prop):
             "non-trivial = the history mutates through a path")
     trusted = ["canonical dumps go through the public read API (iteration, as_*); objects are dumped one member per key (the first), sorted by key: "
                "len() and iteration of a parsed object with duplicate keys show the duplicates, which is documented behaviour and outside the map model",
-               "numbers of the histories are small integers; HashMap iteration order is not part of the model"]
+               "numbers of the histories are small integers; HashMap iteration order is not part of the model",
+               "not exercised: Array::append / Object::append (two containers), IterMut, resize_with, the sort_keys build"]
     assumptions = ["a panic is reported as 'the reference rejects the operation'; the value must then still dump as before"]
 
     def explore(self, ctx, res):
